@@ -41,6 +41,12 @@ def decode_value(v: Any) -> Any:
             return getattr(M.load().Color, v["$e"])
         if "$se" in v:
             return getattr(M.load().SKind, v["$se"])
+        if "$d" in v:  # a plain dict, keys in the given order
+            return {k: decode_value(x) for k, x in v["$d"]}
+        if "$ie" in v:  # an IntEnum member (an int by instance, another type by `type()`)
+            return getattr(M.load().Prio, v["$ie"])
+        if "$is" in v:  # an instance of a user subclass of int
+            return M.load().Line(v["$is"])
         if "$t" in v:
             return tuple(decode_value(x) for x in v["$t"])
         if "$fs" in v:
@@ -63,8 +69,10 @@ def typed_value(v: Any) -> Any:
         return ("none",)
     if isinstance(v, bool):
         return ("bool", v)
+    if isinstance(v, enum.Enum) and isinstance(v, int):
+        return ("enum", type(v).__name__, v.name)
     if isinstance(v, int):
-        return ("int", v)
+        return ("int", v) if type(v) is int else ("int-subclass", type(v).__name__, int(v))
     if isinstance(v, float):
         return ("float", repr(v))
     if isinstance(v, enum.Enum):  # before str: an enum with a str mixin is an enum member
@@ -81,6 +89,8 @@ def typed_value(v: Any) -> Any:
         return ("fs", frozenset(typed_value(x) for x in v))
     if isinstance(v, list):
         return ("list", tuple(typed_value(x) for x in v))
+    if isinstance(v, dict):  # (ordered: the order of the keys is part of what a caller sees)
+        return ("dict", tuple((k, typed_value(x)) for k, x in v.items()))
     if type(v).__name__ == "Bomb":
         return ("bomb", v.tag)
     if isinstance(v, NodeRef):
@@ -430,6 +440,12 @@ def st_value(kind: str, strs: Any = None):
         return st.lists(inner, max_size=2).map(lambda xs: {"$t": xs})
     if kind == "senum":
         return st.sampled_from(["ADD", "SUB"]).map(lambda n: {"$se": n})
+    if kind == "anydict":
+        # a plain dict (keys in the drawn order, nested one level) in an `Any`-typed property
+        keys = st.lists(st.sampled_from(["zeta", "alpha", "mid", "b", "a", "Z"]), max_size=4, unique=True)
+        flat = keys.flatmap(lambda ks: st.tuples(*[small for _ in ks]).map(lambda vs: [[k, v] for k, v in zip(ks, vs)]))
+        return st.one_of(st.none(), flat.map(lambda ps: {"$d": ps}),
+                         st.tuples(flat, flat).map(lambda t: {"$d": [["outer", {"$d": t[0]}], *t[1]]}))
     if kind == "bytes":
         # invalid UTF-8 next to the text of its own escape, embedded quotes and separators
         return st.sampled_from([b"", b"a", b"\xff", b"\\xff", b"\x00", b"\xc3\xa9", b"'", b"\\'", b")", b"a\xffb",
